@@ -128,6 +128,17 @@ def run(ctx):
             for kind, seps in (('blank', blank), ('single', single)):
                 for j, sp in enumerate(seps):
                     tcases.append(['PTEXT', f'sp{k}{kind[0]}{j}', vlib.esc(l_ + sp + r_), kind, str(k)])
+        # three parts, two separators: how one line break is spelled must not change how a LATER one is read (trailing blanks and
+        # tabs before the second break; a carriage return is not a blank for this lexer — `\n\r` already ends a blank line — so CR spellings are left to the LEX correspondence of C13)
+        single2 = ['\n', ' \n', '\n ', '\t\n', ' \n ', '\t\n\t']
+        blank2 = ['\n\n', '\n \n', ' \n\n', '\n\n ', '\t\n\t\n', ' \n \n ']
+        triples = [('1', '2', '3'), ('1 + 2', '3 + 4', '5 + 6'), ('a', 'b c', 'd'), ('5 = 1', '2 + 2', '3, 3'), ('{ 1 }', '$ + 1', ':k = 3')]
+        for k, (l_, m_, r_) in enumerate(triples):
+            for k1, seps1 in (('single', single2), ('blank', blank2)):
+                for k2, seps2 in (('single', single2), ('blank', blank2)):
+                    for j1, sp1 in enumerate(seps1):
+                        for j2, sp2 in enumerate(seps2):
+                            tcases.append(['PTEXT', f'tr{k}{k1[0]}{k2[0]}{j1}.{j2}', vlib.esc(l_ + sp1 + m_ + sp2 + r_), k1 + '+' + k2, 't' + str(k)])
         ti = vlib.run_impl([c[:3] for c in tcases], 'c02text', per_case_s=5.0)
         ref = {}
         nsep = 0
@@ -143,8 +154,8 @@ def run(ctx):
             if key not in ref:
                 ref[key] = (shape, c)
             elif shape != ref[key][0]:
-                ctx.fail('oracle', c[:3], impl=r[:300], expect=ref[key][0][:300], note=f'the same separator ({c[3]} line break) spelled {vlib.unesc(c[2])!r} parses to a different tree than spelled {vlib.unesc(ref[key][1][2])!r}')
-            if c[3] == 'blank' and shape.startswith('ok') and not shape.startswith('ok (Subexpression'):
+                ctx.fail('oracle', c[:3], impl=r[:300], expect=ref[key][0][:300], note=f'the same separator(s) ({c[3]} line break) spelled {vlib.unesc(c[2])!r} parses to a different tree than spelled {vlib.unesc(ref[key][1][2])!r}')
+            if c[3] == 'blank' and c[4][0] != 't' and shape.startswith('ok') and not shape.startswith('ok (Subexpression'):
                 ctx.fail('oracle', c[:3], impl=r[:300], expect='ok (Subexpression …', note=f'a blank line does not separate sub-expressions in {vlib.unesc(c[2])!r}')
         ctx.evaluations += len(tcases)
         stats['PTEXT separator spellings'] = nsep
